@@ -84,7 +84,7 @@ Code(c) ==
 
 -----------------------------------------------------------------------------
 Bodies == UNION { [1..n -> Names] : n \in 0..MaxBody }
-Starts == UNION { [1..n -> Names] : n \in 1..MaxBody }
+Starts == UNION { [1..n -> Names] : n \in 1..(IF MaxBody > 2 THEN 2 ELSE MaxBody) }
 
 MCInit == conf = [bodies |-> [g \in GroupNames |-> <<>>], start |-> <<>>] /\ phase = "pick" /\ bad = {}
 MCPick == /\ phase = "pick"
